@@ -189,8 +189,12 @@ def _export_and_compare(rec, fp, fmt, ds, truth, cells, check_index, target, tmp
             except LibraryRaised as err:
                 rec.check(False, f"{fp}/raised", "write_geojson raised", 'file', str(err))
                 return
-            with open(path) as f:
-                data = json.load(f)
+            try:
+                with open(path) as f:
+                    data = json.load(f)
+            except (OSError, ValueError) as err:
+                rec.check(False, f"{fp}/unreadable", "the GeoJSON file cannot be read back", 'valid JSON', f"{type(err).__name__}: {err}")
+                return
             features = data.get('features', [])
             if not rec.check(data.get('type') == 'FeatureCollection' and len(features) == len(cells),
                              f"{fp}/feature-count", "number of features", len(cells), len(features)):
@@ -211,9 +215,13 @@ def _export_and_compare(rec, fp, fmt, ds, truth, cells, check_index, target, tmp
             except LibraryRaised as err:
                 rec.check(False, f"{fp}/raised", "write_shapefile raised", 'file', str(err))
                 return
-            with shapefile.Reader(path) as reader:
-                shapes = reader.shapes()
-                records = [r.as_dict() for r in reader.records()]
+            try:
+                with shapefile.Reader(path) as reader:
+                    shapes = reader.shapes()
+                    records = [r.as_dict() for r in reader.records()]
+            except Exception as err:  # noqa: BLE001  (pyshp is the independent reader here)
+                rec.check(False, f"{fp}/unreadable", "the Shapefile cannot be read back", 'a shapefile', f"{type(err).__name__}: {err}")
+                return
             if not rec.check(len(shapes) == len(cells) == len(records), f"{fp}/feature-count", "number of shapes/records",
                              len(cells), [len(shapes), len(records)]):
                 return
@@ -239,12 +247,16 @@ def _export_and_compare(rec, fp, fmt, ds, truth, cells, check_index, target, tmp
             except LibraryRaised as err:
                 rec.check(False, f"{fp}/raised", f"write_{fmt} raised", 'file', str(err))
                 return
-            if fmt == 'wkt':
-                with open(path) as f:
-                    multi = shapely.from_wkt(f.read())
-            else:
-                with open(path, 'rb') as f:
-                    multi = shapely.from_wkb(f.read())
+            try:
+                if fmt == 'wkt':
+                    with open(path) as f:
+                        multi = shapely.from_wkt(f.read())
+                else:
+                    with open(path, 'rb') as f:
+                        multi = shapely.from_wkb(f.read())
+            except Exception as err:  # noqa: BLE001  (shapely's readers are the independent readers here)
+                rec.check(False, f"{fp}/unreadable", f"the {fmt} file cannot be read back", 'geometry', f"{type(err).__name__}: {err}")
+                return
             geoms = list(getattr(multi, 'geoms', [multi]))
             if not rec.check(len(geoms) == len(cells), f"{fp}/feature-count", "number of polygons", len(cells), len(geoms)):
                 return
